@@ -83,7 +83,8 @@ def _edits(tier, flavour="plain", cfgs=(0,), devs=False):
     # thorough: two edits under the first configuration, one edit (two preemptions) under the others
     jobs = [J("cutmc", flavour, ["--mode", "edits", "--cfg", str(c)] + ([] if (tier == "quick" or i == 0) else ["--edits", "1", "--preempt", "2"])) for i, c in enumerate(cfgs)]
     if devs:
-        jobs.append(J("cutmc", flavour, ["--mode", "edits", "--cfg", "0", "--devs", "1", "--edits", "1", "--preempt", "1" if tier == "quick" else "2"]))
+        jobs.append(J("cutmc", flavour, ["--mode", "edits", "--cfg", "0", "--devs", "1", "--edits", "1", "--preempt", "1" if tier == "quick" else "2"] +
+                      (["--maxbase", "8"] if (tier == "quick" and flavour == "asan") else [])))
     return jobs
 
 
@@ -327,7 +328,7 @@ def _c01_jobs(tier):
         J("cutmc", "asan", ["--mode", "corpus"]),
         # labelled scenario: TRANSACTION_COMPLETE destroys its own transaction (auto-destroy off)
         J("statemc", "asan", ["--alphabet", "macro", "--depth", d("4", "5"), "--cfg", "0", "--devdepth", d("4", "5"), "--selfdestroy"]),
-    ] + _edits(tier, "asan", cfgs=(0, 1) if q else (0, 1, 3, 5), devs=not q)
+    ] + _edits(tier, "asan", cfgs=(0, 1) if q else (0, 1, 3, 5), devs=True)
     if not q:
         jobs += [J("statemc", "asan", ["--alphabet", "micro", "--depth", "3", "--cfg", str(c), "--devdepth", "2"]) for c in (3, 4, 5, 9, 13)]
     return jobs
